@@ -90,11 +90,12 @@ Theorem C12_commit_needed : exists cs evs s,
 Proof. exact C12_commit_needed_thm. Qed.
 Print Assumptions C12_commit_needed.
 
-Theorem C12_sdlag_needed : exists cs evs s,
-  accept (init cs true) evs = Some s /\ holds_C12 true cs evs = false /\ holds_C12w true cs evs = false /\
-  only_flag 1 (final_obs cs evs) = true /\ c12_side cs evs = true /\ c12_noforeign cs evs = true.
-Proof. exact C12_sdlag_needed_thm. Qed.
-Print Assumptions C12_sdlag_needed.
+(* the former witness for "window sdlag is needed" (an internal stop after a fatal probe result finds a never-launched
+   instance Pending) is no longer a history of the model: probe results exist only after the first launch *)
+Example C12_sdlag_witness_rejected :
+  accept (init ex_cs true) ex_sdlag = None /\ fst (accept_prefix (init ex_cs true) ex_sdlag 0) = 21%nat /\
+  nth_error ex_sdlag 21 = Some (500%N, EProbe 12%N false true).
+Proof. exact ex_sdlag_rejected. Qed.
 
 (* non-vacuity: a 46-event accepted history (Run of two processes, 2 depends on 1; ordered shutdown stops 2,
    waits for its completion, then stops 1) on which all hypotheses hold and the monitor is exercised twice *)
